@@ -202,6 +202,11 @@ POSITIONS = [
     ("is-operand", "let r = select (@E@ is \"int\", 0) => {true = 41};"),
     ("convert-operand", "let r = int(convert flags {a = @E@} == \"-a 41 \") + 40;" if False else "let r = select (convert flags {a = @E@}, 0) => {\"-a 41 \" = 41};"),
     ("tuple-field-of-copy-in-function", "let t = {a = 1};\nlet f = func () => t{b = @E@};\nlet r = f().b;"),
+    # the end bound of a range constraint (the grammar takes an expression there, not at the start)
+    ("constraint-range-end", "let r :: in 0..(@E@) = 41;"),
+    ("constraint-statement-range-end", "constraint c = in 0..(@E@);\nlet r :: c = 41;"),
+    ("constraint-alternation-range-end", "constraint c = \"x\" | in 0..(@E@);\nlet r :: c = 41;"),
+    ("constraint-range-end-of-function-argument", "let f = func (x :: in 0..(@E@)) => x;\nlet r = f(41);"),
     ("out-expression", None),
 ]
 SPELLINGS = ["d/lib.ucg", "./d/lib.ucg", "../p/d/lib.ucg", "./d/../d/lib.ucg", ".//d/lib.ucg"]
